@@ -31,6 +31,9 @@ RangeItems ==
        accepted one must mean the decimal number *)
     Odd(I("010..=011", "range", << <<10, 11>> >>)), Odd(I("012", "single", << <<12, 12>> >>)),
     Odd(I("[010, 02..=03]", "list", << <<10, 10>>, <<2, 3>> >>)), Odd(I("002..=0003", "range", << <<2, 3>> >>)),
+    (* bit numbers are plain decimal: hex / underscore / suffixed literals are refused, not read by their leading digits *)
+    I("0x2..=0x3", "bad", <<>>), I("2..=0x3", "bad", <<>>), I("0x5", "bad", <<>>), I("1_0..=1_1", "bad", <<>>), I("2..=3usize", "bad", <<>>),
+    I("[0x5, 2]", "bad", <<>>),
     I("2..3", "bad", <<>>), I("2..", "bad", <<>>), I("..=3", "bad", <<>>), I("2..=", "bad", <<>>),
     I("[2..3]", "bad", <<>>), I("2..=3..=4", "bad", <<>>), I("2=3", "bad", <<>>), I("2...3", "bad", <<>>) }
 AccessItems == { I("r", "access", <<>>), I("w", "access", <<>>), I("rw", "access", <<>>),
@@ -39,7 +42,7 @@ AccessItems == { I("r", "access", <<>>), I("w", "access", <<>>), I("rw", "access
 StrideItems == { I("stride = 2", "stride", << <<2, 2>> >>), I("stride: 2", "stride", << <<2, 2>> >>), I("stride = 4", "stride", << <<4, 4>> >>),
                  I("stride = 1", "stride", << <<1, 1>> >>),  \* smaller than the two-bit ranges: semantically invalid there, in ANY order
                  Odd(I("stride = 010", "stride", << <<10, 10>> >>)),
-                 I("stride 2", "bad", <<>>), I("stride =", "bad", <<>>), I("stride = x", "bad", <<>>), I("stride", "bad", <<>>),
+                 I("stride = 0x2", "bad", <<>>), I("stride 2", "bad", <<>>), I("stride =", "bad", <<>>), I("stride = x", "bad", <<>>), I("stride", "bad", <<>>),
                  I("step = 2", "bad", <<>>) }
 
 Cls(items) == [k \in 1..Len(items) |-> items[k].cls]
